@@ -1203,6 +1203,81 @@ func propC14(r *Run) {
 			}
 		}
 	}
+	// --- a secondary input that changes only FAR BEHIND its beginning (beyond the first 4096 /
+	// 8192 bytes), with and without a damaged line in the middle: the key has to cover the WHOLE
+	// file (seeded change W7-2: `gts annotate` hashed the blocks read by a first, partial parse and
+	// took the features from a lenient second one).  History (A, B, A).
+	for ci := range c14Cmds {
+		cmd := &c14Cmds[ci]
+		for i, p := range cmd.pos {
+			if p.kind != "file" {
+				continue
+			}
+			for variant := 0; variant < 3; variant++ {
+				mk := func(tail int) cliInput {
+					var b bytes.Buffer
+					if cmd.name == "annotate" {
+						for k := 0; k < 160; k++ {
+							if variant == 1 && k == 40 {
+								b.WriteString("     misc_feature    12..!!\n") // a line the table parser rejects
+							}
+							if variant == 2 && k == 40 {
+								b.WriteString("\n") // an empty line inside the table
+							}
+							fmt.Fprintf(&b, "     misc_feature    %d..%d\n                     /note=\"feature number %d of the table\"\n", k+1, k+9, k)
+						}
+						fmt.Fprintf(&b, "     misc_feature    %d..%d\n                     /note=\"the last one\"\n", tail, tail+7)
+						return inHex(b.Bytes())
+					}
+					for k := 0; k < 40; k++ {
+						fmt.Fprintf(&b, ">guest%d\n%s\n", k, strings.Repeat("acgtacgtag", 20+k%3))
+						if variant == 1 && k == 15 {
+							b.WriteString("\n\n")
+						}
+					}
+					fmt.Fprintf(&b, ">last\n%s\n", strings.Repeat("ttga", tail))
+					return inHex(b.Bytes())
+				}
+				base := c14Base(r.rng, cmd, primaries[0])
+				base.pos[i] = nil
+				base.sec[i] = mk(3)
+				other := base.clone()
+				other.sec[i] = mk(5)
+				if variant == 0 {
+					h := histOf("sweep/secondary-tail", base.run(), other.run(), base.run())
+					h.inputChanged[1] = true
+					h.inputChanged[2] = true
+					hists = append(hists, h)
+					continue
+				}
+				// damaged in the middle: the reader of the secondary input may stop there, and the key
+				// covers the bytes that were READ (the digest sits on a tee), which the protocol model
+				// does not describe — oracle only: in ONE cache directory every cached run writes what
+				// its --no-cache run writes
+				ra, rb := base.run(), other.run()
+				if ra.early || ra.ofile() != "" {
+					continue
+				}
+				d := newCliDir()
+				line := fmt.Sprintf("cli.env \"a secondary input damaged in the middle (variant %d) that changes only in its tail\" gts %s %s", variant, ra.cmd, strings.Join(ra.args, " "))
+				crumb(line)
+				for step, rn := range []cliRun{ra, rb, ra, rb} {
+					want := d.runEnv(rn, true, nil, -1, 0)
+					got := d.runEnv(rn, false, nil, -1, 0)
+					r.count("env/secondary damaged in the middle, tail changed")
+					r.eval(line+" step "+itoa(step), want.status == 0)
+					if got.status != want.status || !bytes.Equal(got.out, want.out) {
+						r.fail(Failure{Oracle: "caching is transparent when a secondary input that is damaged in the middle changes only in its tail (history A, B, A, B in one cache directory)", Op: line + " step " + itoa(step),
+							Got:  fmt.Sprintf("status %d, %d bytes (sha1 %s)", got.status, len(got.out), sha1hex(got.out)[:12]),
+							Want: fmt.Sprintf("status %d, %d bytes (sha1 %s)", want.status, len(want.out), sha1hex(want.out)[:12])})
+						break
+					}
+				}
+				d.close()
+			}
+		}
+	}
+
 	// --- annotation-only changes: the secondary input (guest, host, query, feature table) changes
 	// ONLY in a qualifier value / a feature key / a location / a header field / the residue case /
 	// the line ends, the primary input and the arguments stay; and the mirror, the primary input
